@@ -133,6 +133,10 @@ Proof.
   reflexivity.
 Qed.
 
+Lemma validate_r_exact_conj : forall st b,
+  validate_r st b = None <-> spec st b = true /\ commit_addresses_ok st b = true.
+Proof. intros st b. rewrite validate_r_exact. unfold specb_r. apply andb_true_iff. Qed.
+
 (* the repaired function refuses whatever the unrepaired one refuses *)
 Lemma validate_r_stricter : forall st b, validate_r st b = None -> validate st b = None.
 Proof. intros st b H. apply validate_r_none in H. tauto. Qed.
@@ -203,6 +207,33 @@ Proof.
   intros f h F H T G. rewrite Z.quot_div_nonneg by lia.
   pose proof (Z.div_mod (f + h) 2 ltac:(lia)) as D.
   pose proof (Z.mod_pos_bound (f + h) 2 ltac:(lia)) as M. lia.
+Qed.
+
+(* ... so: faulty signers hold less than a third of the power the commit carries => the block time
+   lies between two timestamps of correct signers *)
+Lemma accepted_time_between_honest_third : forall st b c (honest : wt -> bool) lo hi,
+  wf_valset (st_last_vals st) -> NoDup (map v_addr (st_last_vals st)) ->
+  validate_r st b = None -> b_lc b = Some c -> h_height (b_h b) <> st_initial st ->
+  let l := signer_entries (st_last_vals st) (cm_sigs c) in
+  in_range l -> 2 <= wsum l ->
+  3 * wsum_if (fun e => negb (honest e)) l < wsum l ->
+  (forall e, In e l -> honest e = true -> lo <= fst e <= hi) ->
+  lo <= h_time (b_h b) <= hi.
+Proof.
+  intros st b c honest lo hi Hwf ND V Ec Hne l R G T Hb.
+  pose proof (signer_entries_bounds sig (st_last_vals st) (cm_sigs c) (proj1 Hwf)) as [N _].
+  fold l in N.
+  pose proof (wsum_split honest l) as Sp.
+  pose proof (wsum_if_nonneg honest l N) as H0.
+  pose proof (wsum_if_nonneg (fun e => negb (honest e)) l N) as F0.
+  set (f := wsum_if (fun e => negb (honest e)) l) in *.
+  set (h := wsum_if honest l) in *.
+  assert (E : wsum l = f + h) by lia.
+  destruct (third_below_threshold f h F0 H0 ltac:(lia) ltac:(lia)) as [A B].
+  apply (accepted_time_between_honest st b c honest lo hi Hwf ND V Ec Hne R).
+  - fold l. fold f. rewrite E. exact A.
+  - fold l. fold h. rewrite E. exact B.
+  - exact Hb.
 Qed.
 
 End Repaired.
